@@ -1,4 +1,5 @@
-(* EmitNqHOTop.v — C05: the higher-order portability theorems for the evaluator.
+(* EmitNqHOTop.v — copy of EmitHOTop.v over the widened emit_ok (EmitNqHO.v): emit_ok takes nanfix, the simulation
+   takes binop_lit_ok_inst.  Original header: C05: the higher-order portability theorems for the evaluator.
    Instances of EmitNqHOSim.ho_simulation with the transcribed operators / built-ins (EmitNqHOOps.v),
    and the corollaries: emission equivalence for closures capturing closures to any depth,
    re-emission chains, first-order results are EQUAL, function results are RELATED; and the
@@ -7,7 +8,8 @@ From Coq Require Import String Ascii List ZArith Bool Lia.
 Require Import Blots.Num Blots.gen.Builtins Blots.Ast Blots.Value Blots.Outcome Blots.Binop
                Blots.Env Blots.Eval Blots.Emit Blots.BuiltinsHof Blots.Program Blots.EvalInst Blots.EvalFull
                Blots.proofs.ValueInd Blots.proofs.EmitLit Blots.proofs.EmitSubst Blots.proofs.EmitSound
-               Blots.proofs.EmitNqHO Blots.proofs.EmitNqHOSim Blots.proofs.EmitNqHOOps.
+               Blots.proofs.EmitNqHO Blots.proofs.EmitNqHOSim Blots.proofs.EmitNqHOOps
+               Blots.EmitNq Blots.proofs.EmitNqLit.
 Import ListNotations.
 Open Scope string_scope.
 Open Scope list_scope.
@@ -18,7 +20,7 @@ Section Reload.
   Variable biok : builtin -> bool.
   Variable nanfix : bool.
   Notation vrel := (vrel opok biok nanfix).
-  Notation emit_ok := (emit_ok opok biok).
+  Notation emit_ok := (emit_ok opok biok nanfix).
 
   Lemma names_ok_get' ps (sc : list (string * value)) x v :
     scope_names_ok ps (map fst sc) = true -> rec_get sc x = Some v ->
@@ -100,11 +102,11 @@ Theorem ho_simulation_full : forall release nanfix d fr fr' this this' f f' args
   vrelI nanfix f f' -> lrelI nanfix args args' ->
   orelI nanfix (fst (AD release binop_impl builtin_full d fr this f args st))
                (fst (AD release binop_impl builtin_full d fr' this' f' args' st')).
-Proof. intros release nanfix. apply ho_simulation. apply impl_rel_full. Qed.
+Proof. intros release nanfix. apply ho_simulation; [apply impl_rel_full|apply binop_lit_ok_inst]. Qed.
 
 (* emission equivalence, captured values of any order *)
 Theorem emit_equiv_higher_order : forall release nanfix d fr fr' this this' id id' ps b sc args args' st st',
-  emit_okI (VLam id ps b sc) = true -> lrelI nanfix args args' ->
+  emit_okI nanfix (VLam id ps b sc) = true -> lrelI nanfix args args' ->
   orelI nanfix (fst (AD release binop_impl builtin_full d fr this (VLam id ps b sc) args st))
                (fst (AD release binop_impl builtin_full d fr' this'
                         (VLam id' ps (subst true (scope_map nanfix true sc) b) []) args' st')).
@@ -113,14 +115,14 @@ Proof.
 Qed.
 
 (* emittable values are related to themselves (the same argument may be given to both functions) *)
-Lemma emit_ok_refl nanfix : forall v, emit_okI v = true -> vrelI nanfix v v.
+Lemma emit_ok_refl nanfix : forall v, emit_okI nanfix v = true -> vrelI nanfix v v.
 Proof.
   induction v using value_ind'; intros Hok; try (constructor; fail).
   - constructor. cbn [EmitNqHO.emit_ok] in Hok. induction H as [|x l Hx _ IH]; [constructor|].
     cbn in Hok. apply andb_prop in Hok as [A B]. constructor; auto.
   - constructor. cbn [EmitNqHO.emit_ok] in Hok. apply andb_prop in Hok as [_ Hok].
     induction H as [|[k x] l Hx _ IH]; [constructor|].
-    cbn in Hok, Hx. apply andb_prop in Hok as [A B]. apply andb_prop in A as [_ A]. constructor; auto.
+    cbn in Hok, Hx. apply andb_prop in Hok as [A B]. constructor; auto.
   - (* a closure, with the empty inlining scope *)
     rewrite <- (subst_nil true b) at 2.
     cbn [EmitNqHO.emit_ok] in Hok. apply andb_prop in Hok as [Hok Hsc]. apply andb_prop in Hok as [Hok Hnm].
@@ -138,7 +140,7 @@ Qed.
 
 (* results: equal when first-order, related when functions; same error class; same depth verdict *)
 Theorem emit_equiv_ho_same_args : forall release nanfix d fr fr' this this' id id' ps b sc args st st' r,
-  emit_okI (VLam id ps b sc) = true -> forallb emit_okI args = true ->
+  emit_okI nanfix (VLam id ps b sc) = true -> forallb (emit_okI nanfix) args = true ->
   fst (AD release binop_impl builtin_full d fr this (VLam id ps b sc) args st) = r ->
   exists r', fst (AD release binop_impl builtin_full d fr' this'
                      (VLam id' ps (subst true (scope_map nanfix true sc) b) []) args st') = r' /\
@@ -159,7 +161,7 @@ Qed.
 (* re-emission: emitting the reloaded function again and reloading that gives a function related to
    the ORIGINAL (so chains of any length stay equivalent to the original) *)
 Theorem reemit_related : forall nanfix id id1 id2 ps b sc e1 f1 e2 f2,
-  emit_okI (VLam id ps b sc) = true ->
+  emit_okI nanfix (VLam id ps b sc) = true ->
   emit_ast nanfix true (VLam id ps b sc) = Some e1 -> reload_ast id1 e1 = Some f1 ->
   emit_ast nanfix true f1 = Some e2 -> reload_ast id2 e2 = Some f2 ->
   e2 = e1 /\ vrelI nanfix (VLam id ps b sc) f1 /\ vrelI nanfix (VLam id ps b sc) f2.
